@@ -216,6 +216,17 @@ def gen_logic(T, W, tier):
                 for (tk, tP) in tgts:
                     for (k1, P1) in srcs:
                         ops.append("asg2 %s %d %d %d %d,%d %d,%d 0,0" % (T, shape, m, n, tk, tP, k1, P1))
+    # -- tall narrow blocks: at least two packets of ROWS but a row shorter than two packets (down to shorter than the alignment
+    #    offset of its first element): the row LENGTH, not the number of rows, decides whether the packet partition is used
+    for shape in (0, 2):
+        for m in (2 * W - 1, 2 * W, 2 * W + 1, 4 * W):
+            for n in sorted(set(list(range(1, W + 1)) + [2 * W - 1, 2 * W])):
+                for k in range(0, W):
+                    P = pal(k + n, W)
+                    ops.append("asg2 %s %d %d %d %d,%d %d,%d 0,0" % (T, shape, m, n, k, P, k, P))
+                    if k in few:
+                        ops.append("asg2 %s %d %d %d %d,%d %d,%d 0,0" % (T, shape, m, n, k, P + W, k, P))
+                        ops.append("asg2 %s %d %d %d 0,0 %d,%d 0,0" % (T, shape, m, n, k, P))
     for n in range(1, N + 1):   # second operand in a view as well, three leaves
         for k in few:
             P = pal(k + n, W)
